@@ -142,8 +142,20 @@ func genC15(t *rapid.T) C15Pair {
 			"db__i__20060102-150405-000000000__G0.pb", "db__i__20060102-150405.000000000__G0.pb.gz",
 			"db__i__20060102-150405-00000000__G0.pb.gz", "db__i__20061302-150405-000000000__G0.pb.gz",
 			"db__i__20060102-150405-000000000.pb.gz", "db/i__x__20060102-150405-000000000__G0.pb.gz",
-			"db__i__20060102-150405-000000000__G0.pb.gz.tmp", "db__i__20060102-150405-000000000__G0.txt"}),
+			"db__i__20060102-150405-000000000__G0.pb.gz.tmp", "db__i__20060102-150405-000000000__G0.txt",
+			// well formed in every respect except a day that month does not have / a leap second / hour 24
+			"db__i__20230230-150405-000000000__G0.pb.gz", "db__i__20230229-000000-000000000__G0.pb.gz",
+			"db__i__20230431-235959-999999999__G0.pb.gz", "db__i__21000229-120000-000000000__G0.pb.gz",
+			"db__i__20230931-000000-000000000__G0.pb.gz", "db__i__20240229-000000-000000000__G0.pb.gz",
+			"db__i__20230101-240000-000000000__G0.pb.gz", "db__i__20230101-235960-000000000__G0.pb.gz",
+			"db__i__20230100-000000-000000000__G0.pb.gz", "db__i__20230001-000000-000000000__G0.pb.gz"}),
 	).Draw(t, "junk")
+	if rapid.IntRange(0, 9).Draw(t, "junk_date") == 0 {
+		// a snapshot-shaped name with a generated calendar field out of range or a day its month lacks
+		c.Junk = fmt.Sprintf("db__i__%04d%02d%02d-%02d%02d%02d-%09d__G0.pb.gz",
+			rapid.SampledFrom([]int{1970, 2023, 2024, 2100, 2262}).Draw(t, "jy"), rapid.IntRange(0, 13).Draw(t, "jm"), rapid.IntRange(0, 32).Draw(t, "jd"),
+			rapid.IntRange(0, 24).Draw(t, "jh"), rapid.IntRange(0, 60).Draw(t, "jmi"), rapid.IntRange(0, 61).Draw(t, "js"), rapid.IntRange(0, 999_999_999).Draw(t, "jn"))
+	}
 	return c
 }
 
